@@ -34,6 +34,12 @@ func C02(e *Env) {
 	r.Rule("R06.4", "what a resolver emits is what it records, and the resolver's result is copied field by field into output.Arg (shared with C06)", 8)
 	c03Sanitise(e)
 	r.Rule("R03.1", "argument payloads reach the generated code quoted, exported or as grammar-checked groups (shared with C03): non-string literals keep their value and type through exporter.MustExport", 14)
+	c14Groups(e)
+	c14Guards(e)
+	r.Rule("R14.8", "`!value expr` injects the Go expression as written: every capture group of the value / type / constructor grammars (pointer or address marker, import, name, selector chain, {}) is copied into the compiled expression on every path (shared with C14)", 5)
+	r.Rule("R14.9", "the current package never reaches the alias table (shared with C14)", 5)
+	c02ConstUsage(e, "R02.2")
+	r.Rule("R02.2", "constant usage: every resolver / token factory formats its code with the code-template constant of its own kind only (service, tag, value, provider, concatenation, getParam, token provider), each constant calls the constructor-local helper of that kind, and (R02.5) the generated expression is parsed back as a dependency of that kind, i.e. the helper is bound to the matching runtime constructor", 17)
 	c02More(e)
 	r.NotCovered = append(r.NotCovered,
 		"what the runtime library does with the registered constructor, fields and calls (objects observed at run time)",
